@@ -17,7 +17,8 @@ from props import c07
 
 PID = "C04"
 REASONS = dict(c07.REASONS)
-REASONS.update({49: "inner-tick-outside-its-outer-tick-or-at-another-time", 51: "device-observation-sequence-differs-from-model",
+REASONS.update({49: "inner-tick-outside-its-outer-tick-or-at-another-time", 45: "device-updated-with-an-earlier-time-after-a-later-one",
+                44: "participant-raised-or-stalled-under-a-delivery-schedule", 51: "device-observation-sequence-differs-from-model",
                 53: "tick-sequence-of-a-scheduler-differs-from-model", 54: "master-tick-real-times-differ-from-model", 52: "model-extra-update"})
 
 
@@ -41,6 +42,20 @@ def main(tier, seed):
     sbad = run_shards(PID + "_s", sprops.HEADER, "sim_case", "check_sim_c04", terms, shard_size=12)
     for c, r in zip(cases, runs):
         ck.count("s:" + json.dumps(sprops.describe(c), sort_keys=True), sum(1 for (lv, _, _) in r["ticklog"] if lv != 1) >= 2)
+    # the same simulations on a delaying, reordering bus (harness/cbus.py), judged by the serial / monotone oracle only
+    from props import c08
+    dcases, dterms = [], []
+    for c in cases[:{"quick": 40, "thorough": 400}[tier]]:
+        pol = rng.choice(c08.POLICIES)
+        bseed = rng.randrange(10 ** 6)
+        r = slevel.run_internal(c["cfg"], c["devs"], c["speed"], c["initial"], c["stim"], sprops.T_END, bus=c08.make_bus(pol, bseed, c["cfg"]))
+        dcases.append((c, pol, bseed, r))
+        dterms.append(slevel.render_sim_case(c["cfg"], c["devs"], c["speed"], c["initial"], c["stim"], sprops.T_END, r))
+    dbad = run_shards(PID + "_d", sprops.HEADER, "sim_case", "oracle_c04", dterms, shard_size=12)
+    for i, (c, pol, bseed, r) in enumerate(dcases):
+        errs = (r["bus"] or {}).get("errors", []) + r["errors"] + ([r["error"]] if r["error"] else [])
+        if errs:
+            dbad.setdefault(i, []).append(44)
     # the step-exhaustive interrupt injection sweep of C07, judged here by the serial / monotone oracle only
     icases, _ = c07.s_part(ck, tier, rng)
     iterms = [slevel.render_sim_case(c["cfg"], c["devs"], (1, 1), 0, [], 1_300_000_003, c["run"]) for c in icases]
@@ -50,8 +65,8 @@ def main(tier, seed):
                "simulations (corpus + seeded random to depth 3) with callbacks and interrupts; non-trivial = script with a mid-tick "
                "interrupt / simulation with >= 2 inner ticks")
     ck.coverage.update(simulations=len(cases), inner_ticks=sum(sum(1 for (lv, _, _) in r["ticklog"] if lv != 1) for r in runs),
-                       injection_sweep_runs=len(icases), disagreements=len(mbad) + len(sbad) + len(ibad))
-    prop = {46, 47, 48, 49}
+                       injection_sweep_runs=len(icases), delayed_bus_runs=len(dcases), disagreements=len(mbad) + len(sbad) + len(ibad) + len(dbad))
+    prop = {44, 45, 46, 47, 48, 49}
     done = set()
     for i in sorted(mbad):
         for code in mbad[i]:
@@ -61,6 +76,15 @@ def main(tier, seed):
                 ck.report(REASONS[code], f"MasterScheduler: {REASONS[code]}",
                           dict(kind="master", conns=c["conns"], comps=c["comps"], initial=c["initial"], speed=c["speed"],
                                events=[[r, list(e), [list(o) for o in outs]] for r, e, outs in c["events"]], codes=mbad[i]))
+    for i in sorted(dbad):
+        for code in dbad[i]:
+            if code in prop and code not in done:
+                done.add(code)
+                c, pol, bseed, r = dcases[i]
+                d = sprops.describe(c)
+                d.update(kind="delayed", schedule=[pol, bseed], codes=dbad[i], ticklog=r["ticklog"][:40],
+                         errors=((r["bus"] or {}).get("errors", []) + r["errors"])[:3])
+                ck.report(REASONS[code], f"whole simulation on the delaying bus ({pol}): {REASONS[code]}", d)
     for i in sorted(ibad):
         for code in ibad[i]:
             if code in prop and code not in done:
@@ -96,6 +120,18 @@ def main(tier, seed):
 def replay(rp):
     if rp.get("kind") == "single":
         return sprops.replay_S(rp)
+    if rp.get("kind") == "delayed":
+        from props import c08
+        cfg = {int(k): dict(order=[(c, (kk if kk == "dev" else int(kk))) for c, kk in v["order"]], conns=[tuple(x) for x in v["conns"]]) for k, v in rp["cfg"].items()}
+        devs = {int(k): tuple(v) for k, v in rp["devs"].items()}
+        pol, bseed = rp["schedule"]
+        r = slevel.run_internal(cfg, devs, tuple(rp["speed"]), rp["initial"], [tuple(x) for x in rp["stim"]], sprops.T_END, bus=c08.make_bus(pol, bseed, cfg))
+        bad = run_shards("replay", sprops.HEADER, "sim_case", "oracle_c04",
+                         [slevel.render_sim_case(cfg, devs, tuple(rp["speed"]), rp["initial"], [tuple(x) for x in rp["stim"]], sprops.T_END, r)])
+        errs = (r["bus"] or {}).get("errors", []) + r["errors"] + ([r["error"]] if r["error"] else [])
+        print("schedule:", pol, bseed, "errors:", errs[:2], "codes:", bad.get(0, []))
+        print("updates (device, time):", [(c, t) for (c, t, _) in r["trace"]][:60])
+        return 1 if bad or errs else 0
     if rp.get("kind") == "injection":
         cfg = {int(k): dict(order=[(c, kk) for c, kk in v["order"]], conns=[tuple(x) for x in v["conns"]]) for k, v in rp["cfg"].items()}
         devs = {int(k): tuple(v) for k, v in rp["devs"].items()}
